@@ -57,6 +57,7 @@ func cleanupCLI() {
 	}
 }
 
+var logTimeRe = regexp.MustCompile(`time="[^"]*" `)
 var backupKeyRe = regexp.MustCompile(`Backup master key: ([A-Za-z0-9+/=]+)`)
 
 type cliError struct {
@@ -66,7 +67,7 @@ type cliError struct {
 
 func (e *cliError) Error() string {
 	lines := strings.Split(strings.TrimSpace(e.out), "\n")
-	return fmt.Sprintf("exit status %d: %s", e.code, lines[len(lines)-1])
+	return fmt.Sprintf("exit status %d: %s", e.code, logTimeRe.ReplaceAllString(lines[len(lines)-1], ""))
 }
 
 func runCLIProc(env []string, args ...string) (string, error) {
@@ -107,16 +108,33 @@ func dirSnap(dir string) [32]byte {
 	return out
 }
 
-// cliTamperings: 4 equidistant positions of bundle and access key (a process per attempt)
-// plus wrong access keys; all positions in a replay.
-func cliTamperings(t Tuple, b Bundle, full bool) []Tuple {
-	if full {
+// cliTamperings: first / middle / last byte of the bundle, first / last byte of the access
+// key (xor 0x01) and wrong access keys - a process per attempt; in a replay every position.
+func cliTamperings(t Tuple, b Bundle) []Tuple {
+	if opt.replaying {
 		return tamperingsSparse(t, b, 4)
 	}
-	tt, tw := t, t
-	tt.Tamper, tt.Pos, tt.Mask = "bundle", len(b.Data)/2, 0x01
-	tw.Tamper = "wrong-keys"
-	return []Tuple{tt, tw}
+	n, m := len(b.Data), len(b.Access)
+	var out []Tuple
+	mk := func(kind string, pos int) {
+		tt := t
+		tt.Tamper, tt.Pos, tt.Mask = kind, pos, 0x01
+		if kind == "wrong-keys" {
+			tt.Pos, tt.Mask = 0, 0
+		}
+		out = append(out, tt)
+	}
+	if n > 0 {
+		mk("bundle", 0)
+		mk("bundle", n/2)
+		mk("bundle", n-1)
+	}
+	if m > 0 {
+		mk("access", 0)
+		mk("access", m-1)
+	}
+	mk("wrong-keys", 0)
+	return out
 }
 
 // runCLIState: every tuple of one source state on the acra-backup command.
@@ -162,9 +180,8 @@ func runCLIState(r *ev.Run, out *sink, st srcState, only *Tuple) {
 		}
 		return
 	}
-	full := len(st.Hist) <= cliFullDepth || only != nil
 	targets := []string{TgtEmpty, TgtSame, TgtOther}
-	if !full {
+	if len(st.Hist) > cliTargetsDepth && only == nil {
 		targets = targets[:1]
 	}
 	for _, target := range targets {
@@ -191,7 +208,11 @@ func runCLIState(r *ev.Run, out *sink, st srcState, only *Tuple) {
 		}
 		// tampering (a process per attempt: sparse positions only)
 		snap := dirSnap(tgt.S.Dir)
-		for _, tt := range cliTamperings(t, b, full) {
+		var tampers []Tuple
+		if only != nil || (target == TgtEmpty && len(st.Hist) <= cliTamperDepth) {
+			tampers = cliTamperings(t, b)
+		}
+		for _, tt := range tampers {
 			if only != nil && only.Tamper != "" && (only.Tamper != tt.Tamper || only.Pos != tt.Pos || only.Mask != tt.Mask) {
 				continue
 			}
